@@ -156,9 +156,35 @@ func Ite(c, a, b *Term) *Term {
 	}
 	return r
 }
+// unsignedInt returns the Int term a bit-vector term equals as an unsigned
+// number, when that is known without a modulo: constants, and int2bv of a term
+// whose interval fits the width.
+func unsignedInt(t *Term) (*Term, bool, bool) {
+	if t.w <= 0 {
+		return nil, false, false
+	}
+	if t.IsConst() {
+		return IntBig(t.c), true, false
+	}
+	if t.op == "int2bv" {
+		lo, hi := t.args[0].bounds()
+		if lo != nil && hi != nil && lo.Sign() >= 0 && hi.Cmp(new(big.Int).Lsh(big.NewInt(1), uint(t.w))) < 0 {
+			return t.args[0], true, true
+		}
+	}
+	return nil, false, false
+}
+
 func Eq(a, b *Term) *Term {
 	if a == b {
 		return Bool(true)
+	}
+	if a.w > 0 && a.w == b.w {
+		if x, ok1, c1 := unsignedInt(a); ok1 {
+			if y, ok2, c2 := unsignedInt(b); ok2 && (c1 || c2) {
+				return Eq(x, y)
+			}
+		}
 	}
 	if (a.w == SortInt) != (b.w == SortInt) {
 		a, b = coerceInt(a), coerceInt(b)
@@ -318,6 +344,16 @@ func Cmp(op string, a, b *Term) *Term {
 	}
 	if a == b {
 		return Bool(op == "bvule" || op == "bvsle")
+	}
+	if op == "bvult" || op == "bvule" {
+		if x, ok1, c1 := unsignedInt(a); ok1 {
+			if y, ok2, c2 := unsignedInt(b); ok2 && (c1 || c2) {
+				if op == "bvult" {
+					return ICmp("<", x, y)
+				}
+				return ICmp("<=", x, y)
+			}
+		}
 	}
 	return mk(op, 0, "", nil, a, b)
 }
